@@ -58,7 +58,7 @@ GoBracket(b, a, nres) ==
 SamePlace(x, y) ==
     CASE x.sp # y.sp -> "call-depth-differs"
       [] x.top # y.top -> "value-stack-height-differs"
-      [] x.frames # y.frames -> "frame-skeleton-differs"
+      [] Len(x.frames) # Len(y.frames) \/ (\E i \in 1..Len(x.frames) : SubSeq(x.frames[i], 1, 6) # SubSeq(y.frames[i], 1, 6)) -> "frame-skeleton-differs"   \* the TailCall counter only informs
       [] x.panicdflt # y.panicdflt -> "panic-mode-differs"
       [] \E i \in 1..Len(y.open) : y.open[i] >= y.top -> "open-upvalue-above-top"
       [] OTHER -> ""
